@@ -19,6 +19,9 @@ class ExecCall(ExecExpr):
             handled = yield from self.try_mutator(node, st)
             if handled:
                 return
+        if (isinstance(f, ast.Name) and f.id == "warn") or (isinstance(f, ast.Attribute) and f.attr == "warn"):
+            yield st, NONE      # warnings.warn(...) is a no-op (assumes no `error` warning filter)
+            return
         if isinstance(f, ast.Name) and f.id == "super":
             raise EngineError("bare super()")
         if isinstance(f, ast.Attribute) and isinstance(f.value, ast.Call) and isinstance(f.value.func, ast.Name) \
@@ -104,7 +107,7 @@ class ExecCall(ExecExpr):
                 yield from self.str_method(st, recv, fv.name, args)
             elif isinstance(recv, V) and isinstance(recv.kind, tuple) and recv.kind[0] == "ref":
                 yield from self.call_method(st, recv, fv.name, args, kwargs)
-            elif self.is_seq(recv) or isinstance(recv, VDict):
+            elif self.is_seq(recv) or isinstance(recv, VDict) or self.is_dict(recv):
                 yield from self.container_method(st, recv, fv.name, args, kwargs)
             else:
                 raise EngineError(f"call of bound {fv.name} on {recv}")
@@ -144,8 +147,12 @@ class ExecCall(ExecExpr):
         if name == "copy" and self.is_seq(recv):
             yield st, (V(recv.kind, recv.t) if isinstance(recv, V) else VList(recv.items))
             return
-        if name == "get" and isinstance(recv, VDict):
-            raise EngineError("dict.get on literal")
+        if name == "get" and isinstance(recv, VDict) and not recv.items:
+            yield st, (args[1] if len(args) > 1 else NONE)
+            return
+        if name == "get" and self.is_dict(recv):
+            yield st, self.dict_get(st, recv, args[0], args[1] if len(args) > 1 else NONE)
+            return
         raise EngineError(f"container method {name}")
 
     # ------------------------------------------------------------------ builtins
@@ -158,9 +165,25 @@ class ExecCall(ExecExpr):
             r = api.SPECFUNS[name](self, st, *args, **kwargs)
             yield st, r
             return
+        if self.spec_mode and name == "dict_get":
+            d, k = args[0], args[1]
+            yield st, (NONE if d is NONE else self.dict_get(st, d, k, NONE))
+            return
+        if self.spec_mode and name == "dict_has":
+            d, k = args[0], args[1]
+            yield st, V("bool", z3.BoolVal(False) if d is NONE else self.dict_has(st, d, k))
+            return
         if self.spec_mode and name in ("same_seq", "set_same", "implies", "iff", "ite", "typeis", "fresh", "is_none", "subseq", "seq_concat",
                                        "seq_unit", "seq_empty", "same_class", "born_before_entry"):
             yield st, self.spec_builtin(st, name, args)
+            return
+        if name == "object.__setattr__":
+            obj, fname, val = args
+            lit = [s for s, c in w.str_consts.items() if c.eq(fname.t)] if isinstance(fname, V) and fname.kind == "str" else []
+            if not lit:
+                raise EngineError("object.__setattr__ with a non-literal field name")
+            self.write_field(st, obj, lit[0], val)
+            yield st, NONE
             return
         if name == "isinstance":
             x, c = args
